@@ -5,7 +5,7 @@ import (
 	"strings"
 	"time"
 
-	"github.com/rulego/streamsql/utils/simrt"
+	"verif.local/simrt"
 )
 
 // C14 — analytic functions are sequential per partition and isolated across partitions
